@@ -220,6 +220,9 @@ func (d *driver) loop(res *Result) *Violation {
 		if d.w.Done() {
 			return d.w.Final()
 		}
+		// Done may start the end phase of a scenario (a harness task calling Stop): let it reach its first
+		// scheduling point too, or it would be a candidate in one execution and not yet in another
+		synctest.Wait()
 		now := time.Now()
 		if dl := d.w.Deadline(); !d.finalDrain && !dl.IsZero() && now.After(dl) {
 			// the horizon has passed: before judging, let everything that is runnable run (fair
